@@ -44,6 +44,8 @@ def main():
         import exponax as ex
         from mc import catalog
 
+        if task.get("late_x64"):  # double precision switched on AFTER the library was imported ("once x64 is enabled")
+            jax.config.update("jax_enable_x64", True)
         out = {"x64": bool(jax.config.jax_enable_x64), "default_float": str(jnp.zeros(1).dtype), "items": []}
         if task["kind"] == "etdrk":
             from exponax.nonlin_fun import BaseNonlinearFun
